@@ -248,3 +248,25 @@ PROPS["C08"] = dict(
                 quick=dict(workers=16, checks=6000, steps=1, watchdog_s=900),
                 thorough=dict(workers=16, checks=150000, steps=1, watchdog_s=7200))],
 )
+
+PROPS["C06"] = dict(
+    level="exploration",
+    engine="hist",
+    technique="deterministic simulation: seeded histories that dirty a destination message (populate, mutate, warm the size cache, earlier and failed Unmarshals) before Unmarshal; self-differential oracle against a fresh destination; rapid shrinking",
+    design_ref="DESIGN.md 4.1, 5 (C06)",
+    level_text=("ONLY the clause 'the result does not depend on what the destination message contained before the call' is claimed. A drawn history dirties a destination of a corpus type "
+                "(populate, mutate, Size/Marshal to warm the cache, an earlier Unmarshal of other bytes, a failed Unmarshal of truncated bytes); then the same bytes (a reference-encoded "
+                "drawn message, or the zero-length encoding) are decoded into the dirty destination and into a fresh one, through the generated method or csproto.Unmarshal: error nil-ness, "
+                "canonical digests and the two subsequent Marshals must agree. The clause about every legal encoding variant (order, packing, splits, duplicates, map-entry shapes) is input "
+                "space and is NOT covered."),
+    level_note="Trusted: protobuf-go reflection for populating and digesting, the reference encoder. Self-differential: decode defects independent of the destination are out of scope.",
+    needs=["corpus"],
+    rule=("one execution = one corpus type, one input (drawn message or empty) and a drawn dirtying history of 1-5 steps; non-trivial = the destination was dirtied by at least one step; "
+          "distinct = hash of type, input bytes and steps"),
+    real=["regenerated Unmarshal/Marshal/Size/Reset of all example types", "csproto.Unmarshal dispatch"],
+    model=["fresh-destination twin (oracle)"],
+    assumptions=["agreement with the reference runtime on every legal encoding is not judged here (input space; see C08 for the accept/accept comparison on damaged inputs)"],
+    tests=[dict(name="TestC06Hist", pkg="c06", race=False, mem_gb=16,
+                quick=dict(workers=16, checks=8000, steps=1, watchdog_s=900),
+                thorough=dict(workers=16, checks=600000, steps=1, watchdog_s=7200))],
+)
